@@ -23,7 +23,7 @@ RULE = ("chains of 1..6 calls over a pool of 2..3 frames and 2 vectors (float, i
         "non-trivial = a call with a non-empty receiver that returned a new frame / vector")
 
 FRAME_METHODS = ["select", "unselect", "rename", "filter", "filter_col", "filter_out", "filter_tracked", "filter_out_tracked", "filter_owncol", "slice", "slice_cols", "slice_off", "head", "tail", "sample", "sort", "sort2",
-                 "unique", "drop_na", "count", "modify_vector", "modify_array", "modify_list", "modify_scalar", "modify_lambda", "modify_lambda_col",
+                 "unique", "drop_na", "count", "modify_vector", "modify_tracked", "modify_array", "modify_list", "modify_scalar", "modify_lambda", "modify_lambda_col",
                  "cbind", "rbind", "rbind_self", "update", "anti_join", "semi_join", "inner_join", "left_join", "full_join", "compare", "group_by", "aggregate",
                  "modify_grouped", "split", "map", "deepcopy", "copy", "to_list_of_dicts", "to_json", "to_pandas", "to_arrow", "to_string",
                  "setitem", "delitem", "pop", "colnames"]
@@ -53,9 +53,15 @@ def gen_case(rng, tier):
             k["kind"] = "datetime"
             k["vals"] = [None if v is None else v * 86400000000 for v in k["vals"]]
         frames[1]["cols"] = [k] + [c for c in frames[1]["cols"] if c["name"] != k["name"]][:3]
+    # object columns with unusual elements: a float NaN as an element, lists as elements
+    for spec in frames:
+        if spec["cols"] and rng.random() < 0.3:
+            c = rng.choice(spec["cols"])
+            c["kind"] = rng.choice(["objnan", "objlist"])
+            c["vals"] = vecgen.gen_vals(rng, c["kind"], spec["n"])
     vectors = []
     for _ in range(2):
-        kind = rng.choice(framegen.FRAME_KINDS + ["ustr"])
+        kind = rng.choice(framegen.FRAME_KINDS + ["ustr"]) if rng.random() < 0.8 else rng.choice(["objnan", "objlist"])
         n = n0 if same_n else rng.choice([0, 1, 3, 6])
         vectors.append({"kind": kind, "vals": vecgen.gen_vals(rng, kind, n)})
     steps = []
@@ -78,6 +84,23 @@ def gen_cases(ctx):
                    {"on": "frame", "recv": 0, "m": "modify_vector", "r": 3}, {"on": "frame", "recv": 0, "m": "group_by", "r": 4},
                    {"on": "frame", "recv": 0, "m": "aggregate", "r": 5}]},
     ]
+    # every frame method, once per run at least, on frames made of object columns with unusual elements (a float NaN kept
+    # as an element, lists as elements) — such columns take the generic element-wise paths of the library
+    reps = 4 if ctx.tier == "quick" else 24
+    for rep in range(reps):
+        for j in range(0, len(FRAME_METHODS), 2):
+            nrow = rng.choice([3, 4, 6])
+            mk = lambda kinds: {"n": nrow, "cols": [{"name": nm, "kind": k, "vals": vecgen.gen_vals(rng, k, nrow)} for nm, k in zip("abc", kinds)]}
+            frames = [mk(rng.sample(["objlist", "objnan", "int", "objlist"], 3)), mk(rng.sample(["objlist", "objnan", "str"], 3))]
+            for f in frames:        # at least one non-missing unusual element per object column
+                for c in f["cols"]:
+                    if c["kind"] == "objlist" and not any(isinstance(v, list) for v in c["vals"]):
+                        c["vals"][0] = ["a", "b"]
+                    if c["kind"] == "objnan" and "nan" not in c["vals"]:
+                        c["vals"][-1] = "nan"
+            steps = [{"on": "frame", "recv": rng.randint(0, 1), "m": m, "r": rng.randint(0, 10 ** 9)} for m in FRAME_METHODS[j:j + 2]]
+            cases.append({"op": "chain", "frames": frames, "vectors": [{"kind": "objnan", "vals": vecgen.gen_vals(rng, "objnan", nrow)[:-1] + ["nan"]},
+                                                                        {"kind": "objlist", "vals": vecgen.gen_vals(rng, "objlist", nrow)}], "steps": steps})
     n = 400 if ctx.tier == "quick" else 6000
     for _ in range(n):
         cases.append(gen_case(rng, ctx.tier))
@@ -240,6 +263,25 @@ def call_frame(rng, df, m, pool):
     if m == "modify_vector":
         cand = [(i, e) for i, e in vectors if e.obj.length == n] or vectors
         i, e = rng.choice(cand); nm = newname(); return f"modify({nm}=pool[{i}])", df.modify(**{nm: e.obj}), [i]
+    if m == "modify_tracked":
+        # the caller's own array / vector (kept, and looked at again afterwards) as a new column: object arrays with a float NaN
+        # or list elements, floats with NaN, strings with blanks — by modify and by the constructor
+        kind = rng.choice(["objnan", "objnan", "objlist", "float", "str", "objstr"])
+        k = rng.choice([n, n, 1]) if n else 0
+        arr = vecgen.make_array(kind, vecgen.gen_vals(rng, kind, k))
+        form = rng.choice(["ndarray", "vector"])
+        arg = arr if form == "ndarray" else arr.view(di.Vector)
+        kept = pickle.dumps(arr.tolist())
+        how = rng.choice(["modify", "constructor"])
+        nm = newname()
+        try:
+            out = df.modify(**{nm: arg}) if how == "modify" else di.DataFrame(**{nm: arg})
+        finally:
+            if pickle.dumps(np.asarray(arg).tolist()) != kept:
+                ARG_MUTATED.append(f"{form} of kind {kind} given to {how}")
+        if isinstance(out, di.DataFrame) and any(np.shares_memory(col, arr) for col in out.values()):
+            ARG_MUTATED.append(f"{form} of kind {kind} shared with the result of {how}")
+        return f"{how}({nm}={form}:{kind})", out, []
     if m == "modify_array":
         nm = newname(); return f"modify({nm}=ndarray)", df.modify(**{nm: np.arange(n, dtype=float)}), []
     if m == "modify_list":
@@ -440,7 +482,7 @@ def impl(case):
     return {"events": events, "initial_ncols": [len(arrays_of(e.obj)) for e in pool[:len(case["frames"]) + len(case["vectors"])]]}
 
 
-TABLE_NAME = {"filter_col": "filter", "filter_tracked": "filter", "filter_out_tracked": "filter_out", "filter_owncol": "filter", "slice_cols": "slice", "sort2": "sort", "modify_vector": "modify", "modify_array": "modify", "modify_list": "modify",
+TABLE_NAME = {"filter_col": "filter", "filter_tracked": "filter", "filter_out_tracked": "filter_out", "filter_owncol": "filter", "slice_cols": "slice", "sort2": "sort", "modify_vector": "modify", "modify_tracked": "modify", "modify_array": "modify", "modify_list": "modify",
               "modify_scalar": "modify", "modify_lambda": "modify", "modify_lambda_col": "modify", "modify_grouped": "modify", "rbind_self": "rbind",
               "concat_self": "concat", "rank_min": "rank", "rank_max": "rank", "rank_ordinal": "rank", "sort_desc": "sort"}
 NO_RESULT = {"split", "map", "to_list_of_dicts", "to_json", "to_pandas", "to_arrow", "to_string", "tolist", "equal", "get_memory_use"}
@@ -496,7 +538,8 @@ def judge(ctx, case, obs, mouts):
             who = "receiver" if sh["is_recv"] else "argument"
             ctx.violation("oracle", f"edit-observed-back:{m}:{who}", f"step {ev['step']} {ev.get('desc', m)}: an in-place edit of the {who} changed the result", case, ev)
         if ev.get("arg_mutated"):
-            ctx.violation("oracle", f"mutates:{m}:argument:mask", f"step {ev['step']} {ev.get('desc', m)}: the caller's own condition vector was changed / shared ({ev['arg_mutated']})", case, ev)
+            what = "mask" if m.startswith("filter") else "array"
+            ctx.violation("oracle", f"mutates:{m}:argument:{what}", f"step {ev['step']} {ev.get('desc', m)}: the caller's own {'condition vector' if what == 'mask' else 'array'} was changed / shared ({ev['arg_mutated']})", case, ev)
         if ev.get("conversion_shares"):
             ctx.violation("oracle", f"edit-observed:{m}:converted-object", f"step {ev['step']} {m}: an in-place edit of the frame changed the object {m}() had returned", case, ev)
         if ev.get("callback_shares"):
